@@ -218,6 +218,28 @@ func c07Run(c *Ctx) {
 			}
 		}
 	}
+	// 5e. lines of every shape and length read with ইনপুট (empty, blank, CR-terminated, beyond buffer sizes,
+	// without a final newline, no input at all), then used
+	long := func(n int, unit string) string { return strings.Repeat(unit, n) }
+	for _, sin := range []string{"\n\n\n", "\nx\n\n", " \n\t\n  \n", "\r\n\r\nlast\r\n", "\r\n", "\r", "a\rb\n\n", "", "x", "x\n", "\n", long(4094, "a") + "\n\nz\n", long(4095, "a") + "\nq\n\n", long(4096, "a") + "\n\n\n",
+		long(4097, "b") + "\nshort\n", long(50000, "c") + "\n\n", long(1365, "\u0995") + "\n\n", long(1366, "\u0995") + "\nk\n", long(8192, "d"), "1\n\n2", "\x00\n\n"} {
+		src := Lines(Var("a", BI("input")), Print(`"[" + a + "]"`), Var("b", BI("input", `"p> "`)), Print(`"[" + b + "]"`), Print(`a == b`), Print(`a + b == b + a`), If("a", Print(`"a truthy"`)), Var("cc", BI("input")), Print(`"[" + cc + "]"`))
+		if c.Mine() {
+			c07Judge(c, &Case{Gen: "input-line-shapes", Src: src, Stdin: sin})
+		}
+		if c.Mine() {
+			c07Judge(c, &Case{Gen: "input-line-shapes-cli", Mode: "cli", Src: src, Stdin: sin})
+		}
+	}
+	// 5f. the hand-written scoping / closure / call programs (environment handling under every mechanism)
+	for _, src := range append(c03Handwritten(), c04Handwritten()...) {
+		if c.Mine() {
+			c07Judge(c, &Case{Gen: "handwritten-programs", Src: src, Stdin: "in\n"})
+		}
+		if c.Mine() {
+			c07Judge(c, &Case{Gen: "handwritten-programs-cli", Mode: "cli", Src: src, Stdin: "in\n"})
+		}
+	}
 	// 6. nesting / size stress
 	depth := c.N(3000, 10000)
 	stress := []struct{ name, src string }{
